@@ -27,7 +27,7 @@ func init() {
 			"(10) seek landing, structural part: the restart search of block.Iterator.Seek is classified by the update table of one iteration (lower-bound / floor) and a lower-bound search must examine the interval before the restart point it found; the index stores each block's FIRST key, so the index seek must step back to the last entry <= target — BOTH VIOLATED on this tree (recorded findings, demo in findings_demos/). " +
 			"Added after blind round 5: the temporary file of a table is named after the table's own file name.",
 		NotDecided: "DECLARED UNDECIDED: that forward iteration yields every entry exactly once (decodeCurrent does not advance the cursor, so a raw per-file scan delivers the first entry of a block twice; the merging iterators hide it) and the exact landing position of Seek beyond the two structural conditions of (10) (e.g. what Seek answers at the end of a block). Also not decided: point-lookup completeness for all data sets, behaviour under arbitrary corruption.",
-		Rules:      []func(*Ctx, *Reporter){ruleFooterCodec, ruleIndexEntryCodec, ruleBlockEntryTrace, ruleBlockTrailer, ruleSstChecksums, ruleBloomKey, ruleBloomSiblings, ruleBuilderStrictOrder, ruleIndexFirstKey, ruleNoNarrowArithmetic, ruleEmptyNotDeleted, ruleTombstoneMarker, ruleSstReentrancy, ruleRetainedBuffersAreFresh, ruleReaderLimitsCoverFormat, ruleBlockSeekInterval, ruleIndexSeekAgreement, ruleTempFilePerTable},
+		Rules:      []func(*Ctx, *Reporter){ruleFooterCodec, ruleIndexEntryCodec, ruleBlockEntryTrace, ruleBlockTrailer, ruleSstChecksums, ruleBloomKey, ruleBloomSiblings, ruleBuilderStrictOrder, ruleIndexFirstKey, ruleNoNarrowArithmetic, ruleEmptyNotDeleted, ruleTombstoneMarker, ruleSstReentrancy, ruleRetainedBuffersAreFresh, ruleReaderLimitsCoverFormat, ruleBlockSeekInterval, ruleIndexSeekAgreement, ruleTempFilePerTable, ruleBlockChecksumCoverage, ruleIteratorsOwnCursors},
 	})
 }
 
